@@ -176,7 +176,11 @@ def main(argv: list[str]) -> int:
         print("tier must be quick or thorough")
         return 2
     sys.path.insert(0, str(Path(__file__).parent / "checks"))
-    mod = __import__(prop.lower())
+    try:
+        mod = __import__(prop.lower())
+    except ImportError as e:
+        print(f"no check for {prop}: {e}")
+        return 2
     wd = workdir(prop)
     ctx = Ctx(prop=prop, tier=tier, seed=seed(), wd=wd, replay=replay)
     t0 = time.time()
